@@ -103,7 +103,11 @@ def run(chk):
             raise AnalysisError(f"lint(): unrecognised idiom: {e}", FILE, fn.lineno)
         return r if isinstance(r, tuple) else ("return", None)
 
-    types = list(sup) + [MISSING, "bogus_type"]
+    # "arbitrary type/output attributes": besides an unknown string, attribute values of other kinds - among them an unhashable
+    # one, which a hashed lookup would answer with TypeError where the documented report is ValueError - and an output flag
+    # that is truthy without being the object True
+    junk_types = [["and"], None, 7]
+    types = list(sup) + [MISSING, "bogus_type"] + junk_types
     fo_states = [(0, None)] + [(k, ft) for k in range(1, min(K, 3) + 1) for ft in ("buf", "not")]
     # dotted names: instance registered / not registered / not registered while a registered instance's name is a proper
     # prefix of it (u1 next to u10) / while it is a proper prefix of a registered one
@@ -116,10 +120,13 @@ def run(chk):
     for t in types:
         for fic in range(0, K + 1):
             for foc, fot in fo_states:
-                for out in (False, True):
+                for out in (False, True, 1):
                     for g, bbs in name_forms:
-                        if chk.tier == "quick" and g != "n0" and (t not in ("and", "bb_input", "input", MISSING) or fic > 1 or foc > 1):
+                        is_junk = any(t is j for j in junk_types)
+                        if chk.tier == "quick" and g != "n0" and (is_junk or t not in ("and", "bb_input", "input", MISSING) or fic > 1 or foc > 1):
                             continue  # the dotted-name rule does not interact with the type / count rules; thorough crosses everything
+                        if (is_junk or out == 1 and out is not True) and chk.tier == "quick" and (fic > 1 or foc > 1):
+                            continue
                         attrs = {g: {"output": out}}
                         if t != MISSING:
                             attrs[g]["type"] = t
@@ -130,31 +137,32 @@ def run(chk):
                         for i in range(foc):
                             attrs[f"fo{i}"] = {"type": fot, "output": True}
                             edges.append((g, f"fo{i}"))
+                        tr = "bogus_type" if is_junk else t  # for the lookups of the reference: no other documented rule speaks about such a value
                         bbmap = {k: MBlackBox("bb", [], []) for k in bbs}
                         for undriven, unloaded, sig in flag_sets:
                             n_states += 1
                             clauses = []
-                            if t == MISSING:
+                            if t is MISSING:
                                 clauses.append("no-type")
-                            elif t not in sup:
+                            elif is_junk or t not in sup:
                                 clauses.append("unsupported-type")
                             if "." in g and g.split(".")[0] not in bbmap:
                                 clauses.append("dotted-name-without-instance")
-                            if t in NO_FANIN and fic > 0:
-                                clauses.append(f"fanin-on-{t}")
-                            if t in SINGLE_FANIN and fic > 1:
-                                clauses.append(f"multiple-fanin-on-{t}")
-                            if t == "bb_output" and foc > 1:
+                            if tr in NO_FANIN and fic > 0:
+                                clauses.append(f"fanin-on-{tr}")
+                            if tr in SINGLE_FANIN and fic > 1:
+                                clauses.append(f"multiple-fanin-on-{tr}")
+                            if tr == "bb_output" and foc > 1:
                                 clauses.append("bb_output-multiple-loads")
-                            if t == "bb_output" and foc >= 1 and fot != "buf":
+                            if tr == "bb_output" and foc >= 1 and fot != "buf":
                                 clauses.append("bb_output-non-buf-load")
-                            if undriven and t in (SINGLE_FANIN | MULTI_FANIN) and fic < 1:
-                                clauses.append(f"undriven-{t}")
-                            if sig and t in MULTI_FANIN and fic < 2:
-                                clauses.append(f"single-input-{t}")
+                            if undriven and tr in (SINGLE_FANIN | MULTI_FANIN) and fic < 1:
+                                clauses.append(f"undriven-{tr}")
+                            if sig and tr in MULTI_FANIN and fic < 2:
+                                clauses.append(f"single-input-{tr}")
                             dont_care = False
                             if unloaded and not out and foc == 0:
-                                if t == "bb_input":
+                                if tr == "bb_input":
                                     dont_care = True  # a blackbox input pin never has a load; either reading of "unloaded" is accepted
                                 else:
                                     clauses.append("unloaded")
@@ -164,10 +172,10 @@ def run(chk):
                                 c = MCircuit({k: dict(v) for k, v in attrs.items()}, edges, bbmap)
                                 r = run_lint_node(c, (undriven, unloaded, sig), fail_fast)
                                 got = r[0] == "raise" and r[1] == "ValueError"
-                                state = {"type": t, "fanin": fic, "fanout": foc, "load_type": fot, "output": out, "name": g, "instance_known": bool(bbmap),
+                                state = {"type": repr(attrs[g].get("type", MISSING)) if is_junk else t, "fanin": fic, "fanout": foc, "load_type": fot, "output": out, "name": g, "instance_known": bool(bbmap),
                                          "undriven": undriven, "unloaded": unloaded, "single_input_gates": sig, "fail_fast": fail_fast}
                                 if r[0] == "raise" and r[1] != "ValueError":
-                                    key = f"escape:{r[1]}:" + (clauses[0] if clauses else f"type={t}")
+                                    key = f"escape:{r[1]}:" + (clauses[0] if clauses else f"type={tr}")
                                     bad.setdefault(("C20.N.only-ValueError-escapes", key), state)
                                     continue
                                 if dont_care:
@@ -175,7 +183,7 @@ def run(chk):
                                 if want and not got:
                                     bad.setdefault(("C20.N.rule-missed", f"missed:{clauses[0]}" + ("" if fail_fast else ":accumulating-mode")), state)
                                 elif got and not want:
-                                    bad.setdefault(("C20.N.spurious-report", f"spurious:type={t}:fanin={min(fic,2)}:fanout={min(foc,2)}"), state)
+                                    bad.setdefault(("C20.N.spurious-report", f"spurious:type={tr}:fanin={min(fic,2)}:fanout={min(foc,2)}"), state)
     ref_clauses = (
         ["no-type", "unsupported-type", "dotted-name-without-instance", "bb_output-multiple-loads", "bb_output-non-buf-load", "unloaded"]
         + [f"fanin-on-{t}" for t in sorted(NO_FANIN)]
